@@ -182,6 +182,28 @@ func init() {
 			fr.i.ps.mapNondet = args[0].(bool)
 			return nil
 		},
+		"zzOverflowWatch": func(fr *frame, args []value) value {
+			ps := fr.i.ps
+			ps.ovfWatch = args[0].(bool)
+			if ps.ovfWatch {
+				ps.ovf, ps.trunc = nil, nil
+			}
+			return nil
+		},
+		"zzOverflowed": func(fr *frame, args []value) value {
+			ps := fr.i.ps
+			if ps.ovf == nil {
+				return false
+			}
+			return mkval(ps.ovf, types.Bool)
+		},
+		"zzTruncated": func(fr *frame, args []value) value {
+			ps := fr.i.ps
+			if ps.trunc == nil {
+				return false
+			}
+			return mkval(ps.trunc, types.Bool)
+		},
 		"zzSymbolic": func(fr *frame, args []value) value { return true },
 		"zzNote": func(fr *frame, args []value) value {
 			fr.i.ps.res.Assumes[args[0].(string)] = true
@@ -198,6 +220,7 @@ func init() {
 			ps := fr.i.ps
 			ps.logWrites = true
 			ps.writes = ps.writes[:0]
+			ps.mapWrites = ps.mapWrites[:0]
 			return nil
 		},
 		"zzWriteLogStop": func(fr *frame, args []value) value {
@@ -288,6 +311,11 @@ func zzWritesInto(fr *frame, args []value) value {
 	n := 0
 	for _, w := range ps.writes {
 		if cells[w] {
+			n++
+		}
+	}
+	for _, m := range ps.mapWrites {
+		if seenMaps[m] {
 			n++
 		}
 	}
